@@ -716,6 +716,43 @@ fn c11_server(tier: &str, seed: u64) {
           }
         }
       }
+      // RELAY: the importer punctures a tag of its own and exports; what it exports is its CURRENT
+      // key - a third server importing that state holds nothing on the path of any tag punctured so
+      // far, including the importer's own one
+      if step % 2 == 0 || g.chance(1, 2) {
+        let y = { let mut y = g.below(256) as u8; if mds.contains(&y) && g.chance(1, 2) { y = *g.pick(&mds); } y };
+        let r = importer.puncture(y);
+        trace.push_str(&format!(" importer-pu:{}:{}", y, if r.is_ok() { "ok" } else { "err" }));
+        let mut gone: Vec<u8> = done.clone();
+        gone.push(y);
+        match bincode::serialize(&importer.get_private_key()).ok().and_then(|b| bincode::deserialize::<ServerKeyState>(&b).ok()) {
+          None => fail("key_state_relay_failed", &[("trace", trace.clone())]),
+          Some(st) => {
+            let mut third = Server::new(vec![1, 2, 3]).expect("Server::new");
+            third.set_private_key(st);
+            trace.push_str(" relay-export third-import");
+            let nodes = third.verif_pprf().verif_retained_nodes();
+            for &x in &gone {
+              for nd in &nodes {
+                if covers(node_id(&nd.0), x) {
+                  fail(
+                    "node_on_punctured_path_retained",
+                    &[("where", "state exported by an importer after a puncture of its own, as held by a third server".into()), ("registered_tags", hex(&mds)), ("trace", trace.clone()), ("punctured", x.to_string()), ("prefix", bits_str(&nd.0)), ("seed", hex(&nd.1))],
+                  );
+                }
+              }
+              let mut out = [0u8; 32];
+              if third.verif_pprf().eval(&[x], &mut out).is_ok() {
+                fail("punctured_input_still_evaluates", &[("where", "third server holding the state an importer exported after a puncture of its own".into()), ("registered_tags", hex(&mds)), ("trace", trace.clone()), ("input", x.to_string()), ("value", hex(&out))]);
+              }
+            }
+            if nodes != importer.verif_pprf().verif_retained_nodes() {
+              fail("imported_key_state_differs_from_exported", &[("where", "relay: importer -> third server".into()), ("registered_tags", hex(&mds)), ("trace", trace.clone())]);
+            }
+          }
+        }
+        stat("oracle.C11.relayed_exports");
+      }
       case(true);
       stat("oracle.C11.server_states");
       if si % 2 == 1 {
